@@ -1,5 +1,6 @@
 import Flowjaxv.Model.Vectorize
 import Flowjaxv.Model.Triangular
+import Flowjaxv.Model.Families
 import Flowjaxv.Gen.Leaves
 import Flowjaxv.Gen.Wrappers
 /-!
@@ -176,17 +177,10 @@ variable {α : Type} [Add α] [Sub α] [Mul α] [Div α] [Neg α] [LT α] [LE α
   [OfNat α 0] [OfNat α 1] [OfNat α 2] [OfNat α 4] [OfScientific α]
   [DecidableLT α] [DecidableLE α] [Transc α] [Inhabited α]
 
-/-- `jnp.broadcast_to(loc, (dim,))` for a `loc` of one entry (shape `()` or `(1,)`) or of `dim` entries -/
-def broadcastLoc (loc : List α) (n : Nat) : List α :=
-  match loc with
-  | [l] => List.replicate n l
-  | _ => loc
-
-/-- `TriangularAffine(loc, arr)` (`lower=True`): the hand model `Tri.init`; raises when `arr` is not square, a diagonal entry is
-rejected by the SoftPlus reparameterisation, or `loc` does not broadcast to `(dim,)` -/
-def triangularAffine (loc : List α) (arr : List (List α)) : Option (Tri.TriAffine α) :=
-  let loc' := broadcastLoc loc arr.length
-  if loc'.length != arr.length then none else Tri.init true arr loc'
+/-- `TriangularAffine(loc, arr)` (`lower=True`): the existing hand model (`Families.mvnBijection` = `jnp.broadcast_to(loc, (dim,))` then
+`Tri.init` of `Model/Triangular.lean`); raises when `arr` is not square, a diagonal entry is rejected by the SoftPlus
+reparameterisation, or `loc` does not broadcast to `(dim,)` -/
+def triangularAffine (loc : List α) (arr : List (List α)) : Option (Tri.TriAffine α) := Families.mvnBijection loc arr
 
 /-- `bijection.shape` of a `TriangularAffine`: `(dim,)` -/
 def triShape (t : Tri.TriAffine α) : Shape := [t.triangular.length]
